@@ -380,7 +380,29 @@ static void op_e2frb(int argc, char **argv) {
 	fputc('\n', OUT);
 }
 
+/* e2lc <n> <P> <a> <b> : ep2_mul_sim_lot on the n points P, 2P, …, nP with the scalars a, a + b, …, a + (n-1) b (compact form: lists longer
+   than a line can hold — the bucket method changes its window at 32 points) */
+static void op_e2lc(int argc, char **argv) {
+	if (argc < 5) { fprintf(OUT, "bad-args\n"); return; }
+	int n = parse_int(argv[1]), caught = 0;
+	if (n < 1 || n > 80) { fprintf(OUT, "bad-args\n"); return; }
+	static ep2_t ps[80]; static bn_t ks[80]; ep2_t c0, base; bn_t a, b; raw_t r;
+	ep2_null(c0); ep2_new(c0); ep2_null(base); ep2_new(base); bn_null(a); bn_new(a); bn_null(b); bn_new(b);
+	ep2_tok(base, argv[2]); raw_parse(&r, argv[3]); raw_to_bn(a, &r); raw_parse(&r, argv[4]); raw_to_bn(b, &r);
+	RLC_TRY {
+		for (int i = 0; i < n; i++) {
+			ep2_null(ps[i]); ep2_new(ps[i]); bn_null(ks[i]); bn_new(ks[i]);
+			if (i == 0) ep2_norm(ps[0], base); else { ep2_add(ps[i], ps[i - 1], ps[0]); ep2_norm(ps[i], ps[i]); }
+			if (i == 0) bn_copy(ks[0], a); else bn_add(ks[i], ks[i - 1], b);
+		}
+		ep2_mul_sim_lot(c0, ps, (const bn_t *)ks, n);
+	} RLC_CATCH_ANY { caught = 1; }
+	if (take_err() || caught) fprintf(OUT, "err"); else ep2_out(c0);
+	fputc('\n', OUT);
+}
+
 const op_t ops_ep2[] = {
+	{"e2lc", op_e2lc},
 	{"e2frb", op_e2frb},
 	{"ep2_param", op_ep2_param}, {"e2b", op_e2b}, {"e2u", op_e2u}, {"e2m", op_e2m}, {"e2s", op_e2s},
 	{"e2l", op_e2l}, {"e2d", op_e2l}, {"e2la", op_e2l}, {"e2da", op_e2l}, {"e2pt", op_e2pt}, {"e2wb", op_e2wb}, {"e2rb", op_e2rb}, {"f2rt", op_f2rt}, {"f2rb", op_f2rb},
